@@ -894,3 +894,101 @@ package lorawan
 //@   loop 0: invariant blockA: a[0] == 1 && a[1] == 0 && a[2] == 0 && a[3] == 0 && a[4] == 0 && a[5] == dirbyte(uplink) && a[6] == devAddr[3] && a[7] == devAddr[2] && a[8] == devAddr[1] && a[9] == devAddr[0] && a[10] == uint8(fCnt) && a[11] == uint8(fCnt >> 8) && a[12] == uint8(fCnt >> 16) && a[13] == uint8(fCnt >> 24) && a[14] == 0
 //@   loop 0: modifies data[0:len(data)], a[15:16], s[0:16]
 //@   loop 0: decreases len(data) / 16 - i
+
+// FOpts (LoRaWAN 1.1 §4.3.1.1, erratum: A = 0x01 | 0 0 0 | 0x01 (NFCntDown/FCntUp) or 0x02 (AFCntDown) | Dir | DevAddr | FCnt | 0x00 | 0x01)
+//@ spec fopts_ks(key, aFCntDown, uplink, a, fcnt) = aes_enc(key, 0x01, 0, 0, 0, ite(aFCntDown, uint8(2), uint8(1)), dirbyte(uplink), a[3], a[2], a[1], a[0], uint8(fcnt), uint8(fcnt >> 8), uint8(fcnt >> 16), uint8(fcnt >> 24), 0, 1)
+//@ func EncryptFOpts
+//@   props C03 C09 C10
+//@   modifies data[0:len(data)]
+//@   ensures C03/range: (err == nil) == (len(data) <= 15)
+//@   ensures C03/ok: err == nil ==> len(result) == len(data)
+//@   ensures C03/keystream: err == nil ==> forall k int :: 0 <= k && k < len(data) ==> result[k] == old(data[k]) ^ fopts_ks(nwkSEncKey, aFCntDown, uplink, devAddr, fCnt)[k]
+//@   loop 0: invariant bounds: rangeindex >= 0 - 1 && rangeindex < len(data)
+//@   loop 0: invariant done: forall k int :: 0 <= k && k <= rangeindex ==> data[k] == entry(data[k]) ^ s[k]
+//@   loop 0: invariant todo: forall k int :: rangeindex < k && k < len(data) ==> data[k] == entry(data[k])
+//@   loop 0: modifies data[0:len(data)]
+//@   loop 0: decreases len(data) - rangeindex
+
+// ---------------------------------------------------------------------------
+// Encoders of the composite frame parts: frame conditions (C10: marshal operations do not
+// modify the frame; results are fresh) -- functional postconditions under C01.
+// allowpanic: these contracts do not claim panic-freedom for caller-built frames
+// (typed-nil payload pointers); panic-freedom is claimed for decoders (C09).
+// ---------------------------------------------------------------------------
+//@ func interface Payload.MarshalBinary
+//@   modifies nothing
+//@ func interface MACCommandPayload.MarshalBinary
+//@   modifies nothing
+
+//@ func (MACCommand).MarshalBinary
+//@   allowpanic
+//@   props C10
+//@   modifies nothing
+//@   ensures C07/cid: err == nil ==> len(result) >= 1 && result[0] == uint8(m.CID)
+//@   ensures C10/fresh: err == nil ==> fresh(result)
+
+//@ func (FHDR).MarshalBinary
+//@   allowpanic
+//@   props C10
+//@   modifies nothing
+//@   loop 0: invariant bounds: rangeindex >= 0 - 1 && rangeindex < len(h.FOpts)
+//@   loop 0: invariant optsfresh: opts == nil || fresh(opts)
+//@   loop 0: decreases len(h.FOpts) - rangeindex
+//@   ensures C01/len: err == nil ==> len(result) >= 7 && len(result) <= 22
+//@   ensures C10/fresh: err == nil ==> fresh(result)
+
+//@ func (MACPayload).marshalPayload
+//@   allowpanic
+//@   props C10
+//@   modifies nothing
+//@   loop 0: invariant bounds: rangeindex >= 0 - 1 && rangeindex < len(p.FRMPayload)
+//@   loop 0: invariant outfresh: out == nil || fresh(out)
+//@   loop 0: decreases len(p.FRMPayload) - rangeindex
+//@   ensures C10/fresh: err == nil ==> result == nil || fresh(result)
+
+//@ func (MACPayload).MarshalBinary
+//@   allowpanic
+//@   props C10
+//@   modifies nothing
+//@   ensures C01/len: err == nil ==> len(result) >= 7
+//@   ensures C10/fresh: err == nil ==> fresh(result)
+
+//@ func (PHYPayload).MarshalBinary
+//@   allowpanic
+//@   props C10
+//@   modifies nothing
+//@   ensures C10/fresh: err == nil ==> fresh(result)
+
+// ---------------------------------------------------------------------------
+// C02: data-frame MIC (LoRaWAN 1.0.x §4.4, LoRaWAN 1.1 §4.4)
+//   msg = MHDR | FHDR | FPort | FRMPayload   (the bytes MACPayload.MarshalBinary produces)
+//   B0(up)   = 0x49 | 0x00 x4        | 0x00 | DevAddr | FCntUp   | 0x00 | len(msg)
+//   B1(up)   = 0x49 | ConfFCnt | TxDr | TxCh | 0x00 | DevAddr | FCntUp | 0x00 | len(msg)
+//   B0(down) = 0x49 | ConfFCnt | 0x00 x2 | 0x01 | DevAddr | FCntDown | 0x00 | len(msg)
+//   ConfFCnt = confirmed counter mod 2^16 if the frame carries ACK (downlink: and MAC version 1.1), else 0
+//   1.0: MIC = cmac(FNwkSIntKey, B0|msg)[0..3];  1.1 up: MIC = cmacS[0..1] | cmacF[0..1];  down: cmac(SNwkSIntKey, B0|msg)[0..3]
+// callres("(MACPayload).MarshalBinary", 0) is the result of the (only) call of that function on the path.
+// ---------------------------------------------------------------------------
+//@ spec mpl(p) = as(p.MACPayload, "*MACPayload")
+//@ spec mhdr_byte(h) = (uint8(h.MType) & 7) << 5 | uint8(h.Major) & 3
+//@ spec blk_up0(a, fcnt, n) = seq(0x49, 0, 0, 0, 0, 0, a[3], a[2], a[1], a[0], uint8(fcnt), uint8(fcnt >> 8), uint8(fcnt >> 16), uint8(fcnt >> 24), 0, uint8(n))
+//@ spec blk_up1(conf, txdr, txch, a, fcnt, n) = seq(0x49, uint8(conf), uint8(conf >> 8), txdr, txch, 0, a[3], a[2], a[1], a[0], uint8(fcnt), uint8(fcnt >> 8), uint8(fcnt >> 16), uint8(fcnt >> 24), 0, uint8(n))
+//@ spec blk_down0(conf, a, fcnt, n) = seq(0x49, uint8(conf), uint8(conf >> 8), 0, 0, 1, a[3], a[2], a[1], a[0], uint8(fcnt), uint8(fcnt >> 8), uint8(fcnt >> 16), uint8(fcnt >> 24), 0, uint8(n))
+//@ spec micmsg(h, mpb) = cat(seq(mhdr_byte(h)), bytes(mpb))
+//@ spec conf_up(ack, conf) = ite(ack, conf & 0xffff, 0)
+//@ spec conf_down(ver, ack, conf) = ite(ver != LoRaWAN1_0 && ack, conf & 0xffff, 0)
+
+//@ func (*PHYPayload).calculateUplinkDataMIC
+//@   props C02 C10
+//@   requires typed-nil: istype(p.MACPayload, "*MACPayload") ==> mpl(p) != nil
+//@   modifies nothing
+//@   ensures C02/type: err == nil ==> istype(p.MACPayload, "*MACPayload")
+//@   ensures C02/mic10: err == nil && macVersion == LoRaWAN1_0 ==> result0[0] == cmac(fNwkSIntKey, cat(blk_up0(mpl(p).FHDR.DevAddr, mpl(p).FHDR.FCnt, 1 + len(callres("(MACPayload).MarshalBinary", 0)[0])), micmsg(p.MHDR, callres("(MACPayload).MarshalBinary", 0)[0])))[0] && result0[1] == cmac(fNwkSIntKey, cat(blk_up0(mpl(p).FHDR.DevAddr, mpl(p).FHDR.FCnt, 1 + len(callres("(MACPayload).MarshalBinary", 0)[0])), micmsg(p.MHDR, callres("(MACPayload).MarshalBinary", 0)[0])))[1] && result0[2] == cmac(fNwkSIntKey, cat(blk_up0(mpl(p).FHDR.DevAddr, mpl(p).FHDR.FCnt, 1 + len(callres("(MACPayload).MarshalBinary", 0)[0])), micmsg(p.MHDR, callres("(MACPayload).MarshalBinary", 0)[0])))[2] && result0[3] == cmac(fNwkSIntKey, cat(blk_up0(mpl(p).FHDR.DevAddr, mpl(p).FHDR.FCnt, 1 + len(callres("(MACPayload).MarshalBinary", 0)[0])), micmsg(p.MHDR, callres("(MACPayload).MarshalBinary", 0)[0])))[3]
+//@   ensures C02/mic11: err == nil && macVersion != LoRaWAN1_0 ==> result0[0] == cmac(sNwkSIntKey, cat(blk_up1(conf_up(mpl(p).FHDR.FCtrl.ACK, confFCnt), txDR, txCh, mpl(p).FHDR.DevAddr, mpl(p).FHDR.FCnt, 1 + len(callres("(MACPayload).MarshalBinary", 0)[0])), micmsg(p.MHDR, callres("(MACPayload).MarshalBinary", 0)[0])))[0] && result0[1] == cmac(sNwkSIntKey, cat(blk_up1(conf_up(mpl(p).FHDR.FCtrl.ACK, confFCnt), txDR, txCh, mpl(p).FHDR.DevAddr, mpl(p).FHDR.FCnt, 1 + len(callres("(MACPayload).MarshalBinary", 0)[0])), micmsg(p.MHDR, callres("(MACPayload).MarshalBinary", 0)[0])))[1] && result0[2] == cmac(fNwkSIntKey, cat(blk_up0(mpl(p).FHDR.DevAddr, mpl(p).FHDR.FCnt, 1 + len(callres("(MACPayload).MarshalBinary", 0)[0])), micmsg(p.MHDR, callres("(MACPayload).MarshalBinary", 0)[0])))[0] && result0[3] == cmac(fNwkSIntKey, cat(blk_up0(mpl(p).FHDR.DevAddr, mpl(p).FHDR.FCnt, 1 + len(callres("(MACPayload).MarshalBinary", 0)[0])), micmsg(p.MHDR, callres("(MACPayload).MarshalBinary", 0)[0])))[1]
+
+//@ func (*PHYPayload).calculateDownlinkDataMIC
+//@   props C02 C10
+//@   requires typed-nil: istype(p.MACPayload, "*MACPayload") ==> mpl(p) != nil
+//@   modifies nothing
+//@   ensures C02/type: err == nil ==> istype(p.MACPayload, "*MACPayload")
+//@   ensures C02/mic: err == nil ==> result0[0] == cmac(sNwkSIntKey, cat(blk_down0(conf_down(macVersion, mpl(p).FHDR.FCtrl.ACK, confFCnt), mpl(p).FHDR.DevAddr, mpl(p).FHDR.FCnt, 1 + len(callres("(MACPayload).MarshalBinary", 0)[0])), micmsg(p.MHDR, callres("(MACPayload).MarshalBinary", 0)[0])))[0] && result0[1] == cmac(sNwkSIntKey, cat(blk_down0(conf_down(macVersion, mpl(p).FHDR.FCtrl.ACK, confFCnt), mpl(p).FHDR.DevAddr, mpl(p).FHDR.FCnt, 1 + len(callres("(MACPayload).MarshalBinary", 0)[0])), micmsg(p.MHDR, callres("(MACPayload).MarshalBinary", 0)[0])))[1] && result0[2] == cmac(sNwkSIntKey, cat(blk_down0(conf_down(macVersion, mpl(p).FHDR.FCtrl.ACK, confFCnt), mpl(p).FHDR.DevAddr, mpl(p).FHDR.FCnt, 1 + len(callres("(MACPayload).MarshalBinary", 0)[0])), micmsg(p.MHDR, callres("(MACPayload).MarshalBinary", 0)[0])))[2] && result0[3] == cmac(sNwkSIntKey, cat(blk_down0(conf_down(macVersion, mpl(p).FHDR.FCtrl.ACK, confFCnt), mpl(p).FHDR.DevAddr, mpl(p).FHDR.FCnt, 1 + len(callres("(MACPayload).MarshalBinary", 0)[0])), micmsg(p.MHDR, callres("(MACPayload).MarshalBinary", 0)[0])))[3]
